@@ -294,7 +294,7 @@ def _k4(ctx: Context, ss, ser, des) -> None:
             if n.kind != "test" or not any(fr[0] == "loop" for fr in n.frames) and not isinstance(n.ast, ast.While):
                 continue
             cp = compare_parts(n.exprs[0])
-            if not (cp and cp[1] == "Gt" and isinstance(cp[0], ast.Call) and isinstance(cp[0].func, ast.Name) and cp[0].func.id == "len" and len(cp[0].args) == 1
+            if not (cp and cp[1] in ("Gt", "GtE") and isinstance(cp[0], ast.Call) and isinstance(cp[0].func, ast.Name) and cp[0].func.id == "len" and len(cp[0].args) == 1
                     and isinstance(cp[0].args[0], ast.Name)):
                 continue
             v, K_test = cp[0].args[0].id, ctx.const(ef, cp[2], None)
@@ -307,6 +307,28 @@ def _k4(ctx: Context, ss, ser, des) -> None:
                 K_slice, K_step = next(iter(takes)), next(iter(advs))
                 ck.check("C16.K4", K_test == K_step, "encoder: a fragment is split off while more than the fragment size is left", f"{ctx.fkey(ef)}:chunk-loop-test",
                          f"TLVStruct.encode splits fragments of {K_step} bytes off while more than {K_test} bytes are left", ctx.loc(ef, n))
+                if cp[1] == "GtE":
+                    # `while len(v) >= K`: for a length that is an exact multiple of K nothing is left after the loop - the item
+                    # written behind the loop must then be skipped, or the value gets a trailing zero-length fragment
+                    tails = [m for m in ecfg.nodes for c_ in ctx.calls(m) if isinstance(c_.func, ast.Attribute) and c_.func.attr in ("append", "extend") and c_.args
+                             and isinstance(c_.args[0], ast.Call) and isinstance(c_.args[0].func, ast.Name) and c_.args[0].func.id == "len"
+                             and _u(c_.args[0].args[0]) == v and not any(fr[0] == "loop" and fr[2] == "body" and fr[1] is n.ast for fr in m.frames)]
+                    nonempty = []
+                    for tn in ecfg.nodes:
+                        if tn.kind == "test":
+                            if isinstance(tn.exprs[0], ast.Name) and tn.exprs[0].id == v:
+                                nonempty += ecfg.out_edges(tn, ("T",))
+                            c2 = compare_parts(tn.exprs[0])
+                            if c2 and isinstance(c2[0], ast.Call) and isinstance(c2[0].func, ast.Name) and c2[0].func.id == "len" and _u(c2[0].args[0]) == v and tn is not n:
+                                if c2[1] == "Gt" and ctx.const(ef, c2[2], None) == 0 or c2[1] == "NotEq" and ctx.const(ef, c2[2], None) == 0 or c2[1] == "GtE" and ctx.const(ef, c2[2], None) == 1:
+                                    nonempty += ecfg.out_edges(tn, ("T",))
+                    for tl in tails:
+                        wit = None
+                        for e_ in ecfg.out_edges(n, ("F",)):
+                            wit = wit or ([] if e_[1] == tl.id else ecfg.find_path(e_[1], tl.id, avoid_edges=nonempty))
+                        ck.check("C16.K4", wit is None, "encoder: after `while len(v) >= K` the last item is written only when something is left", f"{ctx.fkey(ef)}:trailing-empty-fragment",
+                                 f"TLVStruct.encode splits fragments off while len >= {K_test} and then writes the rest unconditionally: a value whose length is an exact multiple of "
+                                 f"{K_test} gets a trailing zero-length item (not the canonical encoding; the value is no longer `every fragment but the last is full`)", ctx.loc(ef, tl))
     if K_step is None and K_slice is None:
         ck.unknown("C16.K4", "TLVStruct.encode: the fragmentation loop was not recognised (neither range(0, len, K) nor while len > K): fragment size not decided", ef.loc())
     else:
